@@ -34,8 +34,9 @@ def cqc(x):
 
 
 HEADER = '''From Coq Require Import QArith Qcanon ZArith List Bool Arith Lia.
+From Coq Require Qcabs.
 From Verif.lib Require Import Bsp.
-From Verif.C09 Require Import Model Proofs.
+From Verif.C09 Require Import Model Proofs Proofs_entry.
 Import ListNotations.
 Open Scope Qc_scope.
 Definition q (n : Z) (d : positive) : Qc := Q2Qc (n # d).
@@ -78,7 +79,19 @@ Proof. vm_compute. reflexivity. Qed.
 Lemma leggauss_exact_bounded_qc :
   forallb (fun n => rule_ok (Q2Qc defect) n (leggauss n)) (seq 1 %d) = true.
 Proof. vm_compute. reflexivity. Qed.
-''' % (qmax, qmax, qc_upto, qc_upto)
+(* hence (theorem nqp_default_exact): with the DEFAULT node count of the 1D routines, numpy's table
+   integrates every polynomial of the integrand's degree P - du - dv over [-1,1] with defect
+   <= 2e-15 * l1norm, whenever that node count is <= %d *)
+Lemma leggauss_default_exact : forall P du dv c, (du + dv <= P)%%nat ->
+  (Z.to_nat (nqp_default P du dv) <= %d)%%nat -> (length c <= P - du - dv + 1)%%nat ->
+  Qcabs.Qcabs (sumf (fun xw => snd xw * peval c (fst xw)) (leggauss (Z.to_nat (nqp_default P du dv))) - pint 0 c)
+  <= Q2Qc defect * l1norm c.
+Proof.
+  intros P du dv c Hd Hq Hc. apply (nqp_default_exact_l P du dv); try assumption.
+  pose proof leggauss_exact_bounded_qc as H. rewrite forallb_forall in H. apply H. apply in_seq.
+  destruct (nqp_default_suffices_l P du dv Hd) as [_ [H1 _]]. cbv zeta in H1. lia.
+Qed.
+''' % (qmax, qmax, qc_upto, qc_upto, qc_upto, qc_upto)
     return t
 
 
